@@ -26,6 +26,13 @@ Twin(disc, calls) ==
      brokers |-> <<[name |-> "b1", svc |-> "Other"], [name |-> "b2", svc |-> "Edge"]>>,
      links |-> SelectSeq([k \in 1..16 |-> <<BusNames[((k - 1) \div 4) + 1], BusNames[((k - 1) % 4) + 1]>>], LAMBDA l : l[1] # l[2]),
      seeds |-> <<0, 5>>, maxcalls |-> calls, discipline |-> disc]
+(* two clients of Control on one medium: a request seen by the other client carries a payload of ANOTHER type than the answer it waits for *)
+TwinC(disc, calls) ==
+    [services |-> <<Control, Other>>,
+     clients |-> <<[name |-> "c1", svc |-> "Control"], [name |-> "c2", svc |-> "Control"]>>,
+     brokers |-> <<[name |-> "b1", svc |-> "Control"], [name |-> "b2", svc |-> "Other"]>>,
+     links |-> SelectSeq([k \in 1..16 |-> <<BusNames[((k - 1) \div 4) + 1], BusNames[((k - 1) % 4) + 1]>>], LAMBDA l : l[1] # l[2]),
+     seeds |-> <<0, 5>>, maxcalls |-> calls, discipline |-> disc]
 (* a client wired to two brokers of different services, each answering only its own *)
 Fan(disc, calls) ==
     [services |-> <<Control, Edge>>,
